@@ -43,9 +43,11 @@ func (g *DocGen) Conforming(pol *bluemonday.Policy, n int) []byte {
 			}
 			tok := html.Token{Type: html.StartTagToken, Data: e, Attr: attrs}
 			src := tok.String()
-			out := pol.Sanitize(src)
-			if out != src && !(len(attrs) > 0 && strings.HasPrefix(out, "<"+e+" ")) {
-				continue // the policy does not keep this tag
+			if g.TrustImpl {
+				out := pol.Sanitize(src)
+				if out != src && !(len(attrs) > 0 && strings.HasPrefix(out, "<"+e+" ")) {
+					continue // the policy does not keep this tag
+				}
 			}
 			b.WriteString(src)
 			lastText = false
